@@ -260,3 +260,41 @@ Proof.
     { change (inject_Z (Z.of_nat 1)) with (1#1). field. lra. }
     rewrite (Qfloor_comp _ _ E). reflexivity.
 Qed.
+
+(* ====================================================================================== *)
+(* values returned by an object do not change when the object is reconfigured / reused      *)
+(* ====================================================================================== *)
+Lemma amdp_closure_snapshot_lemma : forall lg (o cur1 cur2 : amdp_obj) S b,
+  amdp_make lg o S cur1 b = amdp_make lg o S cur2 b /\ amdp_make lg o S cur1 b = amdp_disc lg S (a_buckets o) b.
+Proof. intros. split; reflexivity. Qed.
+
+(* a closure capturing `this`: 10 buckets at creation, 3 after setEntropyBuckets(3): index 18, then 4 *)
+Lemma amdp_closure_this_refuted_lemma :
+  exists (o cur1 cur2 : amdp_obj) (S : nat) (b : vec), amdp_make_this lg2 o S cur1 b <> amdp_make_this lg2 o S cur2 b.
+Proof.
+  exists {| a_beliefSize := 300; a_buckets := 10 |}, {| a_beliefSize := 300; a_buckets := 10 |},
+         {| a_beliefSize := 300; a_buckets := 3 |}, 2, [1#2; 1#2].
+  vm_compute. discriminate.
+Qed.
+
+(* ====================================================================================== *)
+(* threads                                                                                *)
+(* ====================================================================================== *)
+Lemma tprog_thread_irrelevant : forall (state : Type) (seed_of : N -> state) (next : state -> state * N)
+  (w : sworld state) (p q : list (tpop)),
+  map erase_thread p = map erase_thread q ->
+  tprog_run state seed_of next w p = tprog_run state seed_of next w q.
+Proof. intros. unfold tprog_run. now rewrite H. Qed.
+
+(* toy engine: state = counter *)
+Definition toy_next_tl (st : N) : N * N := (N.succ st, (st * 7 + 3)%N).
+Lemma thread_local_seeder_refuted_lemma :
+  exists (p : list tpop) (w1 w2 : tl_world N),
+    tl_seeder N w1 0 = tl_seeder N w2 0 /\ tl_objs N w1 = tl_objs N w2 /\
+    snd (tl_run N (fun r => r) toy_next_tl w1 p) <> snd (tl_run N (fun r => r) toy_next_tl w2 p).
+Proof.
+  exists [TOn 0 (PSetRoot 5%N); TOn 1 PNew; TOn 1 (PDraw 0)],
+         {| tl_seeder := fun _ => {| s_root := 0%N; s_gen := 11%N |}; tl_objs := [] |},
+         {| tl_seeder := fun t => if Nat.eqb t 0 then {| s_root := 0%N; s_gen := 11%N |} else {| s_root := 0%N; s_gen := 99%N |}; tl_objs := [] |}.
+  split; [reflexivity|]. split; [reflexivity|]. vm_compute. discriminate.
+Qed.
